@@ -13,7 +13,7 @@ RULE = ("every frequency-of-frequency vector of the bound (as list and ndarray) 
         "missing values; non-trivial = f2>0 (richness) / non-empty intersection (overlap)")
 ASSUMPTIONS = ["float results compared with the exact rational closed form to 1e-12 relative",
                "jaccard_index: missing values only inside Series (documented behaviour); ratio forms only where both element sets are non-empty after removal"]
-REQUIRED_CLASSES = {"all": ["f2-zero", "f2-positive", "length-1-vector", "set-container", "series-with-missing", "duplicates", "large-counts", "categorical-with-unused-categories", "tuple-elements", "dict-or-index-container", "string-as-collection", "large-integers-vs-floats"]}
+REQUIRED_CLASSES = {"all": ["f2-zero", "f2-positive", "length-1-vector", "set-container", "series-with-missing", "duplicates", "large-counts", "categorical-with-unused-categories", "tuple-elements", "dict-or-index-container", "string-as-collection", "large-integers-vs-floats", "nullable-integer-series"]}
 MIN_OUTCOMES = 8
 NAN = float("nan")
 ELEMS = ("a", "b", "c", None, NAN)
@@ -227,6 +227,9 @@ def _box(idxs, cont, numeric):
         return {v: n for n, v in enumerate(vals)}
     if cont == "index":
         return pd.Index(vals, dtype=object)
+    if cont == "nullable-int":
+        # pandas' nullable integer dtype: missing cells are pd.NA inside an integer column
+        return pd.Series(pd.array([None if (v is None or v != v) else v for v in vals], dtype="Int64"))
     if cont == "categorical":
         # a categorical column after filtering: categories that no longer occur are still listed
         return pd.Series(pd.Categorical(vals, categories=sorted({v for v in vals if isinstance(v, (str, int))} | ({"zz", "a"} if not numeric else {77, 1}))))
@@ -243,9 +246,9 @@ def _check_overlap(acc, a, b, only=None):
         acc.cls("duplicates")
     inter, union = len(sa & sb), len(sa | sb)
     conts = ("list", "tuple", "set", "series")
-    for ca in conts + ("categorical", "dict", "index"):
+    for ca in conts + ("categorical", "dict", "index", "nullable-int"):
         for cb in (conts if ca in ("list", "series") else ("list", ca)):
-            for numeric in ((False, True) if (ca, cb) in (("list", "list"), ("series", "series"), ("set", "set")) else (False,)):
+            for numeric in ((True,) if ca == "nullable-int" else (False, True) if (ca, cb) in (("list", "list"), ("series", "series"), ("set", "set")) else (False,)):
                 if only is not None and (ca, cb, numeric) != only[:3]:
                     continue
                 if "set" in (ca, cb):
@@ -254,13 +257,17 @@ def _check_overlap(acc, a, b, only=None):
                     acc.cls("series-with-missing")
                 if "categorical" in (ca, cb):
                     acc.cls("categorical-with-unused-categories")
+                if "nullable-int" in (ca, cb):
+                    acc.cls("nullable-integer-series")
+                    if any(not (ELEMS[i] is None or ELEMS[i] != ELEMS[i] or ELEMS[i] in ("a", "b", "c")) for i in a + b):
+                        continue
                 if "dict" in (ca, cb) or "index" in (ca, cb):
                     acc.cls("dict-or-index-container")
                     if any(ELEMS[i] is None or ELEMS[i] != ELEMS[i] for i in a + b):
                         continue        # NaN keys / missing labels in a dict or Index: outside the quantifier
                 for fn in ("overlap", "overlap_coefficient", "jaccard_index"):
                     if fn == "jaccard_index":
-                        if (miss_a and ca not in ("series", "categorical")) or (miss_b and cb not in ("series", "categorical")) or union == 0:
+                        if (miss_a and ca not in ("series", "categorical", "nullable-int")) or (miss_b and cb not in ("series", "categorical", "nullable-int")) or union == 0:
                             continue
                         exp = Fraction(inter, union)
                     elif fn == "overlap":
